@@ -15,7 +15,7 @@ Regs2 == 0..3
 Live == {0, 1}                        \* the registers the model uses
 S(op, d, a, b, bits, rot, k, ld, plb, pld, pplb, c) ==
   [op |-> op, d |-> d, a |-> a, b |-> b, bits |-> bits, rot |-> rot, k |-> k, ld |-> ld, plb |-> plb, vec |-> 0,
-   pld |-> pld, pplb |-> pplb, pmag |-> 0, cst |-> 0, c |-> c, pb |-> B]
+   pld |-> pld, pplb |-> pplb, pmag |-> 0, cst |-> 0, c |-> c, pb |-> B, kz |-> 0]
 IsOkM(r) == regs[r].st = "ok"
 AllocM(r) == regs[r].st # "none"
 Apply(s) == regs' = [regs EXCEPT ![s.d] = Outcome(regs, s).reg]
@@ -33,6 +33,9 @@ Next ==
        IsOkM(a) /\ AllocM(d) /\ d # a /\ (op = "mul_add_ptv" => IsOkM(d)) /\ Apply(S(op, d, a, 0, 0, 0, 0, 0, 0, pld, pplb, 0))
   \/ \E op \in {"add_ptv_assign", "add_ptc_assign", "mul_ptv_assign", "mul_ptc_assign"}, d \in Live, pld \in PldsM, pplb \in {0, B} :
        IsOkM(d) /\ Apply(S(op, d, d, 0, 0, 0, 0, 0, 0, pld, pplb, 0))
+  \/ \E op \in {"dot_ptv", "dot_ptc", "mul_add_ptcz", "add_ptcz_into"}, d, a \in Live, cnt \in 1..2, pld \in PldsM :
+       IsOkM(a) /\ AllocM(d) /\ d # a /\ (op = "mul_add_ptcz" => IsOkM(d)) /\ Apply(S(op, d, a, 0, cnt, 0, 0, 0, 0, pld, 0, a))
+  \/ \E a, b \in Live : a # b /\ IsOkM(a) /\ IsOkM(b) /\ Apply(S("align", IF regs[a].lb >= regs[b].lb THEN a ELSE b, a, b, 0, 0, 0, 0, 0, 0, 0, 0))
   \/ \E d \in Live, sz \in 1..3 : IsOkM(d) /\ Apply(S("realloc", d, d, 0, sz, 0, 0, 0, 0, 0, 0, 0))
   \/ \E d, a, b \in Live : IsOkM(a) /\ IsOkM(b) /\ AllocM(d) /\ d # a /\ d # b /\ Apply(S("dot_ct", d, a, b, a, 0, 0, 0, 0, 0, 0, b))
 Spec == Init /\ [][Next]_regs
